@@ -193,3 +193,17 @@ case("C15", "rc-map-not-involutive", "VIOLATION", [(UT, "complement_map={\"A\": 
 case("C15", "rc-tensor-no-permute", "VIOLATION", [(UT, "seq_rc = torch.flip(seq, dims=(-1,))[idxs]", "seq_rc = torch.flip(seq, dims=(-1,))")], "RC")
 case("C15", "chunk-count-mismatch", "VIOLATION", [(UT, "lengths = (lengths - size) // (size - overlap) + 1", "lengths = lengths // (size - overlap)")], "CHUNKS")
 case("C15", "characters-no-N", "VIOLATION", [(UT, "\t\tdna_chars[n_inds] = 'N'\n", "")], "DECODE")
+
+# ------------------------------------------------------------------ C19
+SQ = "tangermeme/seqlet.py"
+prefix("C19", "D15-prefix-csum-wrap", SQ, "fd657b0", None, "seqlet._recursive_seqlets")
+case("C19", "csum-max-clamp", "VIOLATION", [(SQ, "\t\t\t\t\tattr = X_csum[i, end-1]\n\t\t\t\t\tif start > 0:\n\t\t\t\t\t\tattr -= X_csum[i, start-1]", "\t\t\t\t\tattr = X_csum[i, end-1] - X_csum[i, max(start-1, 0)]")], "CSUM")
+case("C19", "csum-off-by-one", "VIOLATION", [(SQ, "\t\t\t\t\t\tattr -= X_csum[i, start-1]", "\t\t\t\t\t\tattr -= X_csum[i, start]")], "CSUM")
+case("C19", "csum-guard-ge1-spelling", "HOLDS", [(SQ, "\t\t\t\t\tif start > 0:\n\t\t\t\t\t\tattr -= X_csum[i, start-1]", "\t\t\t\t\tif start >= 1:\n\t\t\t\t\t\tattr = attr - X_csum[i, start - 1]")])
+case("C19", "end-not-clipped", "VIOLATION", [(SQ, "end = min(end + min_seqlet_len + additional_flanks - 1, l)", "end = end + min_seqlet_len + additional_flanks - 1")], None, "seqlet._recursive_seqlets")
+case("C19", "start-not-clipped", "VIOLATION", [(SQ, "start = max(start - additional_flanks, 0)", "start = start - additional_flanks")], None, "seqlet._recursive_seqlets")
+case("C19", "threshold-test-dropped", "VIOLATION", [(SQ, "\t\t\t\tif p > threshold:\n\t\t\t\t\tbreak\n", "\t\t\t\tif p >= 1:\n\t\t\t\t\tbreak\n")], "SPAN")
+case("C19", "unsorted-return", "VIOLATION", [(SQ, "return seqlets.sort_values(\"p-value\").reset_index(drop=True)", "return seqlets.reset_index(drop=True)")], "SORT")
+case("C19", "edge-mask-unguarded", "VIOLATION", [(SQ, "\tif flank > 0:\n\t\tX_sum[:, :flank] = -numpy.inf\n\t\tX_sum[:, -flank:] = -numpy.inf", "\tX_sum[:, :flank] = -numpy.inf\n\tX_sum[:, -flank:] = -numpy.inf")], "R-SLICE0")
+case("C19", "tfm-inplace-on-input", "VIOLATION", [(SQ, "X_sum = X_attr.unfold(-1, window_size, 1).sum(dim=-1)", "X_attr[X_attr != X_attr] = 0\n\tX_sum = X_attr.unfold(-1, window_size, 1).sum(dim=-1)")], "R-PURE")
+case("C19", "mask-partial", "VIOLATION", [(SQ, "for s_idx in range(start, end):", "for s_idx in range(start + 1, end):")], "SPAN")
